@@ -139,9 +139,35 @@ pub fn prescreen(n: usize, seed: [u8; 32]) -> Option<i64> {
     None
 }
 
+const MACHINE_ORACLE: crate::machine::Oracle = crate::machine::Oracle::Serialisation;
+const MACHINE_OPS: usize = 40;
+
+/// The API history machine (harness/src/machine.rs) with this property's invariant.
+pub struct ApiHistory;
+
+impl Sub for ApiHistory {
+    type Case = crate::machine::History;
+    fn name(&self) -> &'static str {
+        "api_history"
+    }
+    fn max_shrink_iters(&self) -> u32 {
+        200
+    }
+    fn strategy(&self, _env: &Env) -> BoxedStrategy<crate::machine::History> {
+        crate::machine::strategy(MACHINE_OPS)
+    }
+    fn check(&self, c: &crate::machine::History, st: &mut Stats) -> Result<(), Fail> {
+        crate::machine::run(c, MACHINE_ORACLE, st)?;
+        st.nontrivial(&format!("{:?}", c.ops));
+        st.sample("api_history", || serde_json::json!({"variants": c.variants, "ops": c.ops.iter().take(12).collect::<Vec<_>>()}));
+        Ok(())
+    }
+}
+
 const META: Meta = Meta {
     rule: "proptest (variant, seed, 8 message/randomness seeds): random, all-zero, all-0xFF and single-bit seeds, the committed corpus seeds (found to generate out-of-range F or G before the repair) and pre-screened seeds (the key generator's candidate loop is replayed through the gen_poly / gram_schmidt_norm_squared hooks and seeds whose first accepted (f, g) candidate leaves the encodable range are kept; the property is then decided on the real keygen output). Oracle: exact sizes 1281/897/666 and 2305/1793/1280; from_bytes(to_bytes(x)) == x with byte-identical re-encoding for secret key, public key and every signature; an independent decoder (refimpl::keys) reads exactly the generated (f, g, F) from the secret-key bytes; signatures made alternately with the original and the decoded key verify (library verify on decoded objects, and reference verifier on the bytes). Non-trivial = a key with max|F| or max|G| >= 100 or max|f|,|g| within 2 of the field limit, or a corpus / pre-screened seed; distinct by (variant, seed).",
     assumptions: &[
+        "api_history sub-check: generated histories of 6-60 operations over four in-place key slots (load a fresh object, regenerate, clone, encode/decode, drop, sign and verify on this or a fresh thread; messages include the empty one and two large ones of equal length), interpreted against the obvious model with this property's invariant",
         "oracle: refimpl::keys (secret-key format of specification section 3.11.5) and refimpl::verify",
         "signer randomness is supplied through the SignRng hook (seeded ChaCha) so that runs are reproducible",
     ],
@@ -149,7 +175,7 @@ const META: Meta = Meta {
 
 pub fn run(env: &Env, replay: Option<&Path>) -> i32 {
     let mut report = Report::new();
-    let subs: [&dyn DynSub; 1] = [&RoundTrip];
+    let subs: [&dyn DynSub; 2] = [&RoundTrip, &ApiHistory];
     if let Some(p) = replay {
         if let Err(e) = replay_file(env, &subs, p, &mut report) {
             eprintln!("harness: {}", e);
@@ -181,6 +207,7 @@ pub fn run(env: &Env, replay: Option<&Path>) -> i32 {
     let pre = hits.iter().map(|(n, s, _)| RoundTripCase { n: *n, seed: seed_hex(s), sigs: vec![1, 2, 3, 4], origin: "prescreen".into() });
     drive_enumerated(env, &RoundTrip, pre, &mut report);
     drive(env, &RoundTrip, env.tier.pick(112, 7200), &mut report);
+    drive(env, &ApiHistory, env.tier.pick(1_500, 60_000), &mut report);
     finish(env, report, &META)
 }
 
